@@ -8,7 +8,9 @@ use std::sync::Arc;
 pub mod c01;
 pub mod c06;
 pub mod c07;
+pub mod c11;
 pub mod c12;
+pub mod c16;
 
 pub struct Prop {
     pub id: &'static str,
@@ -25,7 +27,7 @@ pub fn no_extra(_: &Ctx) -> Map<String, Value> {
 }
 
 pub fn all() -> Vec<&'static Prop> {
-    vec![&c01::PROP, &c06::PROP, &c07::PROP, &c12::PROP]
+    vec![&c01::PROP, &c06::PROP, &c07::PROP, &c11::PROP, &c12::PROP, &c16::PROP]
 }
 
 pub fn find(id: &str) -> Option<&'static Prop> {
